@@ -11,7 +11,7 @@ echo
 echo "| seed | attacks | needs (abridged) | check exit | verdict line | theorems | mismatches | oracle violations |"
 echo "|---|---|---|---|---|---|---|---|"
 } > $out
-for d in seeded/[C-K]*/; do
+for d in seeded/[C-Z][0-9]*/; do
   id=$(basename $d)
   needs=$(python3 -c "import json,sys; m=json.load(open('$d/meta.agent.json')); print(str(m.get('needs',''))[:160].replace('|','/').replace('\n',' '))" 2>/dev/null)
   prop=$(python3 -c "import json; print(json.load(open('$d/meta.agent.json')).get('property','$id'))" 2>/dev/null)
